@@ -3,7 +3,7 @@ package vgirpc
 // BOUNDED stand-in for property C28 (not a proof): exhaustive run of the REAL buildWWWAuthenticate
 // and Parse* functions over every metadata value with each optional id/secret in
 // {"", all strings of length 1..2 over {a, _, -}} (13 values each, 13^4 combinations), the flag in
-// {false,true}, and the metadata URL in a fixed adversarial set; 13^4 * 2 * 5 = 285,610 cases.
+// {false,true}, and the metadata URL in a fixed adversarial set; 13^4 * 2 * 10 = 571,220 cases.
 // Judged by the contract: every Parse* returns exactly the field buildWWWAuthenticate was given.
 
 import (
@@ -27,6 +27,12 @@ func TestVerifBounded(t *testing.T) {
 		"https://rs.example/client_secret=/device_code_client_id=",
 		"https://rs.example/r?device_code_client_secret=x&use_id_token_as_bearer=",
 		"https://rs.example/a_client_id=b",
+		// (added with the second repair: name= tails that fuse with the closing quote)
+		"https://rs.example/vgi,client_id=",
+		"https://rs.example/vgi?a=1,device_code_client_secret=",
+		"https://rs.example/vgi?q=1 device_code_client_id=",
+		"https://rs.example/vgi,use_id_token_as_bearer=",
+		"https://rs.example/vgi, client_secret=",
 	}
 	cases, bad := 0, 0
 	var first string
